@@ -508,8 +508,11 @@ def finish(ctx, obligations, discharged, assumptions, theorem_names, level_note=
         "wall_s": round(wall, 2),
         "violations": len(reported) + (1 if (not new_violations and (ctx.broken or ctx.disagreements)) else 0),
     }
-    os.makedirs(os.path.join(VERIF, "evidence"), exist_ok=True)
-    with open(os.path.join(VERIF, "evidence", ctx.prop + ".json"), "w") as fh:
+    # evidence/ describes runs against /repo itself; a run against another tree (MOCLO_REPO: a
+    # seeded change under evaluation) leaves it alone and writes beside the replays
+    evdir = os.path.join(VERIF, "evidence") if os.path.realpath(REPO) == "/repo" else os.path.join(VERIF, "replays", "evidence-other-tree")
+    os.makedirs(evdir, exist_ok=True)
+    with open(os.path.join(evdir, ctx.prop + ".json"), "w") as fh:
         json.dump(ev, fh, indent=1, default=str)
     for ln in lines:
         print(ln)
